@@ -94,8 +94,14 @@ func (t *tokGen) val() string {
 
 func (t *tokGen) errStrJ(withJunk bool) string {
 	s := "!" + strconv.Itoa(t.err())
-	if withJunk && t.r.chance(35) {
-		s += "+" + t.tok()
+	if withJunk && t.r.chance(45) {
+		// the callback also returns a value next to its error: a plain value, or (as a Result-style
+		// function reporting failure "both ways" would) an error Result
+		if t.r.chance(50) {
+			s += "+xu" + strconv.Itoa(t.errN)
+		} else {
+			s += "+" + t.tok()
+		}
 	}
 	return s
 }
